@@ -239,6 +239,20 @@ def _wrap(mod, name):
     setattr(mod, name, w)
 
 
+AUDIT = []     # invariant violations observed by the instrumentation during the current run
+
+
+class AuditedList(list):
+    """The suboperations list of an operation record: appending to it after the
+    record was closed (is_finished) is what C17 forbids."""
+
+    def append(self, x):
+        op = getattr(self, 'op', None)
+        if op is not None and op.__dict__.get('_fbmc_is_finished'):
+            AUDIT.append('appended to the closed record of %s' % type(op).__name__)
+        list.append(self, x)
+
+
 def _flag_property(cls, name, default=None):
     key = '_fbmc_' + name
 
@@ -248,6 +262,10 @@ def _flag_property(cls, name, default=None):
 
     def set_(self, v):
         _pt('wr:' + name)
+        if name == 'suboperations' and type(v) is list:
+            a = AuditedList(v)
+            a.op = self
+            v = a
         self.__dict__[key] = v
     setattr(cls, name, property(get, set_))
 
@@ -299,6 +317,7 @@ def run_schedule(body, prefix, line_granularity=False, libdir=None):
     global S
     s = Scheduler(prefix)
     S = s
+    del AUDIT[:]
     s.register_main()
     tracer = _line_tracer(libdir) if line_granularity else None
     if tracer:
